@@ -268,6 +268,29 @@ fn candidate(rng: &mut Rng, b: &Base, sg: &Sg, nodes: &[N]) -> Option<Step> {
     }
     // white space between two tokens: add / remove blanks and line breaks
     7 => {
+      if rng.chance(2, 5) {
+        // re-indent a line: the non-empty run of blanks at its start is replaced by ANOTHER
+        // non-empty run (an indentation level used elsewhere in the document): in layout-sensitive
+        // languages the line changes its block, in the others only positions move
+        let mut lines: Vec<(usize, usize)> = vec![]; // (offset of the line start, width of its indentation)
+        let mut off = 0usize;
+        for l in text.split_inclusive('\n') {
+          let w = l.bytes().take_while(|b| *b == b' ' || *b == b'\t').count();
+          if w >= 1 && l[w..].trim().len() > 0 {
+            lines.push((off, w));
+          }
+          off += l.len();
+        }
+        if lines.is_empty() {
+          return None;
+        }
+        let (at, w) = lines[rng.below(lines.len())];
+        let mut levels: Vec<usize> = lines.iter().map(|x| x.1).filter(|x| *x != w).collect();
+        levels.sort();
+        levels.dedup();
+        let nw = if levels.is_empty() || rng.chance(1, 4) { if w > 1 && rng.chance(1, 2) { w - 1 } else { w + 1 + rng.below(3) } } else { levels[rng.below(levels.len())] };
+        return Some(Step { api: Api::Edit, class: "reindent", position: at, deleted: w, inserted: " ".repeat(nw) });
+      }
       let leaves: Vec<usize> = (1..nodes.len()).filter(|&i| nodes[i].children == 0).collect();
       if leaves.len() < 2 {
         return None;
